@@ -12,7 +12,7 @@ clause of the statement from the returned (lambda, Q) with dense numpy."""
 import numpy as np
 import scipy.sparse as sps
 
-from ..core import Violation, Skip
+from ..core import Violation, Skip, Inconclusive
 from ..oracles import c11_ref as ref
 
 ID = "C11"
@@ -29,7 +29,7 @@ ASSUMPTIONS = [
     "pair residual judged by the normwise backward error ||A q - lam B q|| / ((||A||_F + |lam| ||B||_F) ||q||_2): "
     "<= 1e-10 dense (LAPACK eigh/eig/ggev are backward stable up to n*eps*cond(B), n <= 40, cond(B) <= 100), "
     "<= 1e-8 sparse (ARPACK tol=0 converges to machine precision; the shifted solves add eps*cond(A - sigma B), the "
-    "generator keeps sigma at least 2% of the local gap away from every eigenvalue)",
+    "generator keeps min|lam - sigma| > 1e-6 max|lam - sigma|, i.e. cond(A - sigma B) <~ 1e6)",
     "bilinear normalisation |q^T B q - 1| <= 50 n eps |q|^T|B||q| + 16 eps (forward rounding bound of the form itself); "
     "pairs with |q|^T|B||q| >= 1e6 (numerically isotropic vector, q^T B q ~ 0: the documented normalisation does not "
     "exist) are not judged and counted; dense generators only emit pencils whose constructed eigenvectors have "
@@ -45,25 +45,44 @@ ASSUMPTIONS = [
     "sparse: nmodes < n-1; FE pencils with a mass matrix that is zero on constrained dofs need rank(M) > ncv = "
     "max(2 nmodes+1, 20) for ARPACK to build its basis, meshes are chosen accordingly; the shift is never an eigenvalue; "
     "the reference spectrum is the dense spectrum of the free dofs (constrained dofs decouple)",
-    "selection: returned values must match distinct reference eigenvalues and their sorted distances to sigma must "
-    "equal the nmodes smallest distances (ties at the cut are therefore admissible either way)",
+    "a failure of the sparse selection clauses only that does not recur when the same instance is asked again with the same matrices is "
+    "recorded as inconclusive (ARPACK draws a random start vector), a recurring one is a violation",
+    "selection: every returned value must match a distinct reference eigenvalue, and no reference eigenvalue that "
+    "was not returned may be closer to sigma than the farthest returned one (beyond the eigenvalue tolerance, so ties at "
+    "the cut are admissible either way). Not counted as a violation but counted separately: a further copy of a "
+    "numerically multiple eigenvalue (e.g. the bc-diagonal value of a constrained stiffness matrix) of which at least "
+    "one copy was returned - a single-vector Krylov method sees one vector per eigenspace in exact arithmetic",
 ]
-FLOORS = {"quick": {"cases_held": 400, "pairs_residual_checked": 10000, "pairs_normalisation_checked": 10000,
-                    "eigenvalues_compared": 10000, "selections_checked": 500, "selections_with_clear_cut": 400,
-                    "signs_decided_by_margin": 2500, "orderings_checked": 1000, "columns_matched_to_sorted_raw": 5000,
-                    "responses_judged": 1200, "repeat_calls_judged": 600},
-          "thorough": {"cases_held": 4000, "pairs_residual_checked": 100000, "selections_checked": 5000,
-                       "eigenvalues_compared": 100000, "responses_judged": 12000, "repeat_calls_judged": 6000}}
+FLOORS = {"quick": {"cases_held": 2800, "distinct_nontrivial": 2000, "responses_judged": 5500, "repeat_calls_judged": 2800,
+                    "pairs_residual_checked": 40000, "pairs_normalisation_checked": 40000, "eigenvalues_compared": 40000,
+                    "orderings_checked": 5500, "columns_matched_to_sorted_raw": 35000, "signs_checked": 15000,
+                    "signs_decided_by_margin": 14000, "selections_checked": 3400, "selections_with_clear_cut": 3200},
+          "thorough": {"cases_held": 20000, "responses_judged": 60000, "repeat_calls_judged": 40000,
+                       "pairs_residual_checked": 500000, "pairs_normalisation_checked": 500000,
+                       "eigenvalues_compared": 500000, "orderings_checked": 60000, "signs_checked": 150000,
+                       "selections_checked": 35000, "selections_with_clear_cut": 33000}}
 TIMEOUT_CASE = 180
 
 # ----------------------------------------------------------------------------------------- option spaces
-DENSE_B = {"sym": ["none", "spd"], "herm": ["none", "spd", "hpd"], "genr": ["none", "spd"], "genc": ["none", "spd"],
+DENSE_B = {"sym": ["none", "spd", "hpd"], "herm": ["none", "spd", "hpd"], "genr": ["none", "spd"], "genc": ["none", "spd"],
            "cgen": ["none", "spd", "hpd"], "csym": ["none", "spd"]}
 SORTERS = ["default", "ascending", "descending", "modulus", "distance", "imag-real", "tracking", "permutation"]
 FE_BC = ["left", "bottom", "both-ends", "pins", "rollers"]
 SIGMODES = ["none", "zero", "below", "inside-low", "inside-deep", "midpoint"]
 SYN_B = {"rsym": ["none", "spd", "diag"], "cherm": ["none", "spd", "hpd"], "rgen": ["none", "spd"],
          "cgen": ["none", "diag", "hpd"], "csym": ["none", "spd"]}
+
+
+# K2 of DESIGN section 5 (absolute tolerance in matrix_is_hermitian) also reaches EigenSolve: a general matrix scaled
+# to ~1e-9 is classified Hermitian and solved with eigh (A = 1e-9*[[1,2],[0,3]]: backward error 0.67).  It is a known,
+# unrepaired finding attributed to C05; switching this on adds dense general cases at scale 1e-9 which are then
+# reported under the single mechanism K2_MECHANISM (to be listed in known_findings.json for C11 first).
+INCLUDE_K2_TINY_SCALE_CORNER = False
+K2_MECHANISM = "class-detection/tiny-scaled-general-matrix-treated-as-hermitian"
+
+# clauses whose outcome legitimately depends on ARPACK's random start vector (which Ritz values converge first)
+ARPACK_DEPENDENT = ("sparse/not-the-eigenvalues-closest-to-the-shift",
+                    "sparse/returned-values-are-not-distinct-eigenvalues-of-the-pencil")
 
 
 def _sorter(name):
@@ -114,13 +133,14 @@ def plan(tier, seed):
     for (cls, b, flag, srt) in combos:
         nmin = 2 if cls == "genc" else 1
         if quick:
-            sizes = [int(rng.integers(nmin, 4)), int(rng.integers(4, 11)), int(rng.integers(11, 26))]
+            sizes = [int(rng.integers(nmin, 4)) for _ in range(2)] + [int(rng.integers(4, 11)) for _ in range(3)] + \
+                    [int(rng.integers(11, 26)) for _ in range(3)]
         else:
-            sizes = list(range(nmin, 26)) + [int(rng.integers(26, 41)) for _ in range(3)]
+            sizes = 2 * list(range(nmin, 26)) + [int(rng.integers(26, 41)) for _ in range(3)]
         for n in sizes:
             spec = "simple"
-            if cls == "sym" and flag != "false":
-                spec = ["simple", "multi", "zeros"][int(rng.integers(0, 3))]
+            if cls == "sym" and flag != "false" and b != "hpd":
+                spec = ["simple", "multi", "zeros", "structured"][int(rng.integers(0, 4))]
             n2 = int(rng.integers(nmin, 26))
             if cls == "genr" and n == 1:
                 n2 = 1                       # a real 1x1 matrix is symmetric: do not change the class afterwards
@@ -129,14 +149,19 @@ def plan(tier, seed):
             steps = [n, n2] + ([n] if not quick else [])
             cases.append({"fam": "dense", "cls": cls, "B": b, "flag": flag, "sort": srt, "spec": spec, "n": steps,
                           "opts": bool(rng.integers(0, 4) == 0), "id": int(rng.integers(0, 2 ** 31))})
+    if INCLUDE_K2_TINY_SCALE_CORNER:
+        for cls in ("genr", "genc", "cgen", "csym"):
+            for n in (2, 3, 6, 12):
+                cases.append({"fam": "dense", "cls": cls, "B": "none", "flag": "auto", "sort": "default", "spec": "simple",
+                              "n": [n, n], "opts": False, "tiny": True, "id": int(rng.integers(0, 2 ** 31))})
     # ---- sparse, FE generated
     if quick:
-        meshes = [[5, 4, 0], [7, 3, 0], [6, 6, 0], [2, 2, 2], [3, 2, 2]]
-        nfe = 360
+        meshes = [[5, 4, 0], [7, 3, 0], [6, 6, 0], [10, 6, 0], [2, 2, 2], [3, 2, 2], [4, 3, 2]]
+        nfe = 2100
     else:
-        meshes = [[5, 4, 0], [7, 3, 0], [6, 6, 0], [9, 5, 0], [12, 8, 0], [16, 12, 0], [2, 2, 2], [3, 2, 2], [3, 3, 3],
-                  [5, 3, 2]]
-        nfe = 3600
+        meshes = [[5, 4, 0], [7, 3, 0], [6, 6, 0], [9, 5, 0], [12, 8, 0], [16, 12, 0], [20, 20, 0], [2, 2, 2], [3, 2, 2],
+                  [3, 3, 3], [5, 3, 2], [6, 5, 4]]
+        nfe = 16000
     kmax = 8 if quick else 12
     i = 0
     while i < nfe:
@@ -145,20 +170,23 @@ def plan(tier, seed):
              "bc": FE_BC[(i // 3) % len(FE_BC)], "gen": bool(i % 2), "mbc": int(rng.integers(0, 3) == 0),
              "nmodes": [None] + list(range(1, kmax + 1)), "sig": SIGMODES[(i // 7) % len(SIGMODES)],
              "fmt": ["csc", "csr", "coo"][int(rng.integers(0, 3))], "sort": SORTERS[(i // 11) % len(SORTERS)],
-             "flag": ["auto", "true"][int(rng.integers(0, 4) == 0)], "steps": 2 if quick else 3,
+             "flag": ["auto", "auto", "auto", "true", "false"][int(rng.integers(0, 5))], "steps": 2 if quick else 3,
+             "x": ["random", "random", "random", "uniform", "two-phase"][int(rng.integers(0, 5))],
              "id": int(rng.integers(0, 2 ** 31))}
         c["nmodes"] = c["nmodes"][i % (kmax + 1)]
         cases.append(c)
         i += 1
     # ---- sparse, synthetic classes
-    nsyn = 4 if quick else 40
+    nsyn = 18 if quick else 120
     for cls, bs in SYN_B.items():
         for b in bs:
             for sig in SIGMODES + (["complex"] if cls in ("cgen", "csym") else []):
                 for r in range(nsyn):
-                    n = int(rng.integers(8, 61 if quick else 201))
+                    n = int(rng.integers(4, 61 if quick else 201))
                     kcap = min(kmax, n - 3)
-                    cases.append({"fam": "syn", "cls": cls, "B": b, "n": n, "sig": sig,
+                    n2 = n if r % 2 else int(rng.integers(n, n + 20))     # second call may come with another size
+                    cases.append({"fam": "syn", "cls": cls, "B": b, "n": n, "n2": n2, "sig": sig,
+                                  "flag": "false" if (cls == "rsym" and r == 1) else "auto",
                                   "nmodes": (None if (r == 0 and n > 12) else int(rng.integers(1, kcap + 1))),
                                   "fmt": ["csc", "csr", "coo"][int(rng.integers(0, 3))],
                                   "sort": SORTERS[int(rng.integers(0, len(SORTERS)))], "steps": 2 if quick else 3,
@@ -209,6 +237,15 @@ def _judge_step(ctx, pym, state, mats, info, step):
         same = (abs(M0 - M1).max() == 0) if sps.issparse(M0) else np.array_equal(M0, M1)
         if not same:
             fails.append((f"input/{nm}-was-modified-by-response", {}))
+    if fails and info["sparse"] and all(m_ in ARPACK_DEPENDENT for m_, _ in fails):
+        # ARPACK starts from a random vector: a failure that does not recur when the very same instance is asked
+        # again with the very same matrices cannot be attributed to EigenSolve -> undecided (counted, listed)
+        W1, Q1 = _respond(pym, mod, sigs, mats, rec)
+        f1, _ = ref.judge(A, B, W1, Q1, sorter=(state["sort"], keyfn), rec=(rec.calls if rec is not None else None), **jk)
+        if not f1:
+            ctx.count("sparse_failures_not_reproducible")
+            raise Inconclusive("sparse result not reproducible on identical input (random ARPACK start vector): "
+                               + fails[0][0], first=fails[0][1], step=step)
     if fails and step > 0:
         fresh = _build(pym, len(mats), state["kwargs"], state["sort"])
         W2, Q2 = _respond(pym, fresh[0], fresh[1], mats, fresh[2])
@@ -240,12 +277,19 @@ def _run_dense(case, ctx, pym):
     state = {"inst": _build(pym, 1 if bk == "none" else 2, kwargs, srt), "sort": srt, "kwargs": kwargs}
     obs_all = {}
     sa, sb = 10.0 ** rng.uniform(-3, 3), 10.0 ** rng.uniform(-2, 2)
+    if case.get("tiny"):
+        sa = 1e-9
     for step, n in enumerate(case["n"]):
         p = ref.dense_problem(rng, cls, n, bk, case["spec"], sa, sb)
         mats = [p["A"]] + ([p["B"]] if p["B"] is not None else [])
         info = {"sparse": False, "hermitian": p["hermitian"], "realsym": p["realsym"], "lam": p["lam"],
                 "cond": p["cond"], "nBinv": p["nBinv"]}
-        _merge(obs_all, _judge_step(ctx, pym, state, mats, info, step))
+        try:
+            _merge(obs_all, _judge_step(ctx, pym, state, mats, info, step))
+        except Violation as v:
+            if case.get("tiny") and not p["hermitian"] and getattr(state["inst"][0], "is_hermitian", None):
+                raise Violation(K2_MECHANISM, observed_as=v.mech, scale=sa, **v.detail)
+            raise
     n0 = case["n"][0]
     size = "1" if n0 == 1 else ("2-3" if n0 <= 3 else ("4-10" if n0 <= 10 else ("11-25" if n0 <= 25 else "26-40")))
     return {"key": f"dense/{cls}/{bk}/{flag}/{srt}/{case['spec']}/n{size}", "nontrivial": n0 >= 2,
@@ -267,17 +311,17 @@ def _pick_sigma(rng, mode, lam, hermitian):
         j = int(rng.integers(0, max(hi, 1)))
         f = 0.5 if mode == "midpoint" else float(rng.choice([rng.uniform(0.25, 0.45), rng.uniform(0.55, 0.75)]))
         s = float(srt[j] + f * (srt[j + 1] - srt[j])) if len(srt) > 1 else float(srt[0] + 1.0)
-        if mode == "complex":
-            s = complex(s, float(rng.uniform(-0.5, 0.5)))
+        if mode == "complex":               # off the real axis by at most the local spacing of the real parts
+            s = complex(s, float(rng.uniform(-1, 1)) * float(srt[min(j + 1, len(srt) - 1)] - srt[j]))
         return s, s
     raise ValueError(mode)
 
 
-def _shift_admissible(lam, sigma, k):
-    """The shift must not (nearly) be an eigenvalue: distance to the closest eigenvalue at least 2% of the distance
-    to the k-th closest one (otherwise the shifted matrix is numerically singular relative to the wanted scale)."""
-    d = np.sort(np.abs(np.asarray(lam) - sigma))
-    return d[0] >= 0.02 * d[min(k, len(d) - 1)] and d[0] > 0
+def _shift_admissible(lam, sigma):
+    """The shift must not (nearly) be an eigenvalue: cond(A - sigma B) ~ max|lam - sigma| / min|lam - sigma| is kept
+    below 1e6 so that eps*cond stays 50x under the sparse residual tolerance."""
+    d = np.abs(np.asarray(lam) - sigma)
+    return d.min() > 1e-6 * d.max()
 
 
 def _run_sparse(case, ctx, pym, make_pencil, label):
@@ -300,8 +344,10 @@ def _run_sparse(case, ctx, pym, make_pencil, label):
             kwargs = {"nmodes": karg, "sigma": sig_arg}
             if case.get("flag", "auto") == "true" and p["hermitian"]:
                 kwargs["hermitian"] = True
+            if case.get("flag", "auto") == "false":
+                kwargs["hermitian"] = False          # general (eigs) path on a symmetric pencil is legitimate
             state = {"inst": _build(pym, 1 if B is None else 2, kwargs, srt), "sort": srt, "kwargs": kwargs}
-        if not _shift_admissible(lam, sig, k):
+        if not _shift_admissible(lam, sig):
             ctx.count("steps_skipped_shift_too_close_to_an_eigenvalue")
             continue
         mats = [A] + ([B] if B is not None else [])
@@ -359,7 +405,12 @@ def _run_fe(case, ctx, pym):
     fmt = case["fmt"]
 
     def make(rng, step):
-        sx.state = 0.1 + 0.9 * rng.random(dom.nel)
+        if case["x"] == "uniform":          # symmetric structure: multiple eigenvalues
+            sx.state = np.full(dom.nel, rng.uniform(0.1, 1.0))
+        elif case["x"] == "two-phase":      # contrast 1e3, as in a converged design
+            sx.state = np.where(rng.random(dom.nel) < 0.5, 1e-3, 1.0)
+        else:
+            sx.state = 0.1 + 0.9 * rng.random(dom.nel)
         mK.response()
         K = mK.sig_out[0].state.asformat(fmt)
         M = None
@@ -386,7 +437,8 @@ def _run_syn(case, ctx, pym):
     def make(rng, step):
         if not sa_sb:
             sa_sb["a"], sa_sb["b"] = 10.0 ** rng.uniform(-3, 3), 10.0 ** rng.uniform(-2, 2)
-        return ref.sparse_problem(rng, case["cls"], case["n"], case["B"], case["fmt"], sa_sb["a"], sa_sb["b"])
+        n = case["n"] if step != 1 else case["n2"]
+        return ref.sparse_problem(rng, case["cls"], n, case["B"], case["fmt"], sa_sb["a"], sa_sb["b"])
 
     obs, sig = _run_sparse(case, ctx, pym, make, "syn")
     n = case["n"]
